@@ -125,6 +125,15 @@ class Hull:
             tot += np.linalg.norm(self.P[a] - self.P[b]) * ext
         return tot / 2
 
+    def min_exterior_angle(self):
+        """Smallest angle between the normals of two adjacent facets (0 = coplanar neighbours)."""
+        best = math.pi
+        for fs in self.edge_faces.values():
+            if len(fs) == 2:
+                n1, n2 = self.normals[fs[0]], self.normals[fs[1]]
+                best = min(best, math.atan2(float(np.linalg.norm(np.cross(n1, n2))), float(np.dot(n1, n2))))
+        return best
+
     def signed_dist(self, pts):
         """max over facets of plane distance: <0 strictly inside; for outside points a
         lower bound of the Euclidean distance."""
